@@ -30,6 +30,24 @@ func main() {
 		os.Exit(cmdReplay(os.Args[2:]))
 	case "dump":
 		cmdDump(os.Args[2:])
+	case "fnlist":
+		// the function vocabulary the rules are written against (checker/known_funcs.txt)
+		os.Setenv("OLINT_NO_INLINE", "1")
+		repo := "/repo"
+		if len(os.Args) > 2 {
+			repo = os.Args[2]
+		}
+		p := Load(repo, patternsFor("thorough"))
+		var names []string
+		for n, f := range p.byName {
+			if f.Parent() == nil && f.Synthetic == "" {
+				names = append(names, n)
+			}
+		}
+		sort.Strings(names)
+		for _, n := range names {
+			fmt.Println(n)
+		}
 	case "list":
 		var ids []string
 		for id := range registry {
